@@ -186,3 +186,22 @@ func wideDirectives() DirectiveSpace {
 	d.Wids, d.Precs = seq(len(widths)), seq(len(precs))
 	return d
 }
+
+// numberFormats: every place of a directive where the parser reads a NUMBER (argument index, width, precision,
+// indexed star), with the numbers at which parsers slip: zero, leading zeros, signs, blanks, empty, and the
+// neighbours of the 10^6 / 2^31 / 2^63 / 2^64 limits.
+func numberFormats() []string {
+	nums := []string{"0", "00", "01", "-1", "+1", " 1", "1 ", "", "1000000", "1000001", "2147483647", "2147483648", "9223372036854775807", "9223372036854775808", "18446744073709551615", "18446744073709551616", "99999999999999999999"}
+	var out []string
+	for _, n := range nums {
+		for _, v := range []string{"d", "s", "v"} {
+			out = append(out,
+				"%["+n+"]"+v, "%["+n+"]*"+v, "%.["+n+"]*"+v, "%[1]"+v+" %["+n+"]"+v, "%["+n+"]"+v+"%"+v,
+				"%["+n+"]*[1]"+v, "%[2]*["+n+"]"+v, "x%["+n+"]", "%["+n)
+			if n != "" && n[0] != ' ' && n[0] != '-' && n[0] != '+' && len(n) < 8 {
+				out = append(out, "%"+n+v, "%."+n+v, "%-"+n+"."+n+v)
+			}
+		}
+	}
+	return out
+}
